@@ -24,6 +24,16 @@ func buildSource(c *core.Ctx, r *rng.Rng, name string, exact bool, m *gen.Map, s
 	if spec.Kind == gen.SPaginated && r.P(0.3) {
 		n = r.Range(70, 160)
 	}
+	if spec.Kind == gen.SPaginated && r.P(0.3) {
+		// many unit entries spread thinly over many pages: they stay in the buffer (no page is worth creating),
+		// the buffer grows beyond its compaction trigger and is encoded as one long index-delta block
+		wide := genValues(c, r, m, gen.StoreSpec{Kind: gen.SDense}, r.Range(150, 300), []string{"pos", "neg", "mixed"}[r.Intn(3)], 2000)
+		h.pool = wide.vals
+		h.weights[opAdd] = 300
+		h.weights[opClear] = 0
+		n = r.Range(100, 400)
+		c.Count("source.thin_spread_unit_entries", 1)
+	}
 	if r.P(0.05) {
 		n = 0
 	}
